@@ -88,7 +88,9 @@ def doomAt (k : Kernel) (pid deadline status : Nat) : Kernel :=
     | some (d, _) => if deadline < d then { p with doom := some (deadline, status) } else p
     | none => { p with doom := some (deadline, status) }
 
-def ignoredSignals : List Nat := [1, 10, 12, 28, 17, 18]   -- HUP USR1 USR2 WINCH CHLD CONT: handled/ignored by workers
+/-- HUP USR1 USR2 WINCH CHLD CONT: handled/ignored by workers; STOP TSTP TTIN TTOU stop a process without ending
+    it — the daemon only ever waits with WNOHANG (never WUNTRACED), so a stopped worker looks like a running one -/
+def ignoredSignals : List Nat := [1, 10, 12, 28, 17, 18, 19, 20, 21, 22]
 
 /-- os.kill: returns the target state at delivery (`gone` = ESRCH) -/
 def kill (k : Kernel) (pid sig : Nat) : Kernel × PState :=
